@@ -306,9 +306,26 @@ func c15ExactFirst(c *Check, a *Anchors) {
 			}
 			return set
 		}
-		// start at the first top-level statement that tests the number of alias hits (the scan itself may live in a helper)
+		// start at the first top-level statement that tests the number of alias hits (the scan itself may live in a helper);
+		// the whole alias half of GetTask may have been moved into a method of the package: evaluate where the tests are
 		var tail []ast.Stmt
-		for i, st := range gt.Body.List {
+		evalFn := gt
+		for _, g := range c.P.groupOf(gt, 2) {
+			has := false
+			for _, st := range g.Body.List {
+				ast.Inspect(st, func(m ast.Node) bool {
+					if e, ok := m.(ast.Expr); ok && lenOf(e) {
+						has = true
+					}
+					return true
+				})
+			}
+			if has {
+				evalFn = g
+				break
+			}
+		}
+		for i, st := range evalFn.Body.List {
 			tests := false
 			ast.Inspect(st, func(m ast.Node) bool {
 				if e, ok := m.(ast.Expr); ok && lenOf(e) {
@@ -317,7 +334,7 @@ func c15ExactFirst(c *Check, a *Anchors) {
 				return true
 			})
 			if tests && tail == nil {
-				tail = gt.Body.List[i:]
+				tail = evalFn.Body.List[i:]
 			}
 		}
 		if tail != nil {
